@@ -465,7 +465,9 @@ func (st *State) loadTyped(addr V, t types.Type) V {
 		st.loadMeta = true
 		defer func() { st.loadMeta = false }()
 	}
-	if strings.HasPrefix(srcRegion, "fresh#") && space == "H" {
+	if (strings.HasPrefix(srcRegion, "fresh#") || strings.HasPrefix(srcRegion, "arg:")) && space == "H" {
+		// objects allocated by this function and the objects behind (non-receiver or mutable) pointer
+		// parameters are not codec metadata
 		st.loadFresh = true
 		defer func() { st.loadFresh = false }()
 	}
